@@ -1,7 +1,7 @@
 (* C12 — assembly preserves constituents; uncoupled parts simulate independently.
    Statements only. *)
 From Coq Require Import Reals List Permutation Arith.
-From JV Require Import TreeSolve TreeSolveFacts TreePerm.
+From JV Require Import TreeSolve TreeSolveFacts TreePerm ChannelOrder ChannelOrderFacts.
 Import ListNotations.
 
 (* concatenating the node tables of the constituents keeps every row, under contiguous
@@ -30,3 +30,19 @@ Proof. exact flatten_sibling_order. Qed.
 
 Example C12_nonvacuous : nth (2 + 1) (concat [[10; 11]; [20; 21; 22]; [30]]) 0 = 21.
 Proof. reflexivity. Qed.
+
+(* ---- the update order of the channels (Model/ChannelOrder.v; known finding F38) ----
+   _step_channels_state updates the channels one after the other, each seeing what the earlier ones wrote.  If no
+   channel writes a state another channel reads or writes - the channel_states of all built-in channels are pairwise
+   disjoint, which the harness checks on the classes - any order of the channel list gives the same states, so
+   the listing order of constituents (which determines that order) cannot matter ... *)
+Theorem C12_update_order_irrelevant_for_independent_channels : forall (cs cs' : list chan),
+  Permutation.Permutation cs cs' -> Forall local cs -> NoDup cs -> pairwise_indep cs ->
+  forall s n, run_chans cs s n = run_chans cs' s n.
+Proof. exact order_irrelevant. Qed.
+
+(* ... and if one channel reads what another writes, it does (F38) *)
+Theorem C12_update_order_matters_for_shared_states :
+  (run_chans [pump; nernst] (fun _ => 0) 1%nat = 100 /\ run_chans [nernst; pump] (fun _ => 0) 1%nat = 0 /\
+   local pump /\ local nernst /\ ~ indep pump nernst)%R.
+Proof. exact order_matters_for_shared_states. Qed.
